@@ -195,6 +195,11 @@ class Sandbox:
             self._stop_mocking(context)
             self._capture_exception(system_exit, sys.exc_info(),
                                     code, filename)
+        except BaseException:
+            # Other non-Exception errors (e.g., KeyboardInterrupt) are not
+            # captured, but the patches must not outlive the execution.
+            self._stop_mocking(context)
+            raise
         else:
             self._stop_mocking(context)
 
